@@ -346,7 +346,7 @@ func TestVerif_C14(t *testing.T) {
 			}
 		}
 		rep.Count("histories", 1)
-		if i == 0 {
+		if rep.WantSample() {
 			rep.Sample(map[string]any{"history": hist[:min(len(hist), 14)]})
 		}
 	})
